@@ -50,6 +50,20 @@ func (m modset) at(n string, s Sort, v ssa.Value) {
 func (x *Exec) addrRootComp(v ssa.Value, out modset) {
 	switch a := v.(type) {
 	case *ssa.FieldAddr:
+		if ia, ok := a.X.(*ssa.IndexAddr); ok {
+			if pt, ok := ia.X.Type().Underlying().(*types.Pointer); ok {
+				if at, ok := pt.Elem().Underlying().(*types.Array); ok {
+					if _, isStruct := at.Elem().Underlying().(*types.Struct); isStruct {
+						if _, emb := ia.X.(*ssa.FieldAddr); emb {
+							// field of an element object of an array of structs embedded in a struct
+							n, s := x.fieldComp(at.Elem(), a.Field)
+							out.whole(n, s)
+							return
+						}
+					}
+				}
+			}
+		}
 		switch a.X.(type) {
 		case *ssa.FieldAddr, *ssa.IndexAddr:
 			x.addrRootComp(a.X, out)
